@@ -150,6 +150,35 @@ fn check_utf8(chunks_: &[Vec<u8>], parse: bool, st: &mut Stats) -> Result<(), St
             ));
         }
     }
+    // the building blocks themselves (public API): Tendril::<Bytes>::decode_utf8_lossy per chunk and
+    // IncompleteUtf8::try_complete for a sequence cut by a chunk boundary, driven by hand
+    {
+        let mut out = String::new();
+        let mut incomplete: Option<tendril::IncompleteUtf8> = None;
+        for c in chunks_ {
+            let mut t = ByteTendril::from_slice(c);
+            if let Some(mut inc) = incomplete.take() {
+                match inc.try_complete(t, |s| out.push_str(&s)) {
+                    Ok(rest) => t = rest,
+                    Err(()) => {
+                        // not enough input yet: the bytes were taken into the buffer
+                        incomplete = Some(inc);
+                        continue;
+                    },
+                }
+            }
+            incomplete = t.decode_utf8_lossy(|s| out.push_str(&s));
+        }
+        if incomplete.is_some() {
+            out.push('\u{FFFD}');
+        }
+        let want = String::from_utf8_lossy(&all);
+        if out != want {
+            return Err(format!(
+                "decode_utf8_lossy / IncompleteUtf8::try_complete driven by hand give {out:?}, whole-input lossy decode {want:?}"
+            ));
+        }
+    }
     if rec.items != exp {
         return Err(format!(
             "decoded stream differs from whole-input lossy decode:\n got {}\n exp {}",
@@ -530,7 +559,7 @@ pub fn decode_enc_case(s: &mut Src) -> Case {
 
 pub fn run(ctx: &Ctx) -> Report {
     let mut rep = Report::new(
-        "(1) bounded-exhaustive: every byte string of length <= L over the 25 boundary bytes of the UTF-8 well-formedness table x every partition into chunks (2^(n-1)), through Utf8LossyDecoder into a recording sink, (and through TendrilSink::read_from with short reads, half of the time with reads that first fail with ErrorKind::Interrupted; some inputs are repeated past the 4 KiB read buffer), compared item by item (characters and error calls, in order) with std's utf8_chunks()/from_utf8_lossy of the whole input; (2) random UTF-8-structured byte strings (<=40 units: ASCII, valid chars, truncated sequences, surrogates, overlongs, >10FFFF, stray continuations, BOM) x random cut multisets incl. empty chunks, 1/4 of them also parsed through parse_document(..).from_utf8() (HTML and XML drivers) and compared with the tree of the lossy string; (3) each of the 40 encoding_rs encodings: LossyDecoder::new_encoding_rs, and LossyDecoder::new_from_encoding_rs_decoder with each kind of decoder (BOM sniffing / BOM removal / no BOM handling, UTF-8 included), fed in chunks vs a one-shot decode of the whole input by the same kind of decoder (characters, malformed-sequence errors, pending state at end of stream), inputs biased to lead/trail/escape bytes, surrogates and >8 KiB lengths. Non-trivial: an ill-formed/incomplete sequence or a valid multi-byte character is adjacent to / split by a cut (UTF-8), or >=2 non-empty chunks with non-ASCII output or a malformed sequence (encoding_rs); distinct by hash of (encoding, chunk list).",
+        "(1) bounded-exhaustive: every byte string of length <= L over the 25 boundary bytes of the UTF-8 well-formedness table x every partition into chunks (2^(n-1)), through Utf8LossyDecoder into a recording sink, through the public building blocks Tendril::decode_utf8_lossy / IncompleteUtf8::try_complete driven by hand, (and through TendrilSink::read_from with short reads, half of the time with reads that first fail with ErrorKind::Interrupted; some inputs are repeated past the 4 KiB read buffer), compared item by item (characters and error calls, in order) with std's utf8_chunks()/from_utf8_lossy of the whole input; (2) random UTF-8-structured byte strings (<=40 units: ASCII, valid chars, truncated sequences, surrogates, overlongs, >10FFFF, stray continuations, BOM) x random cut multisets incl. empty chunks, 1/4 of them also parsed through parse_document(..).from_utf8() (HTML and XML drivers) and compared with the tree of the lossy string; (3) each of the 40 encoding_rs encodings: LossyDecoder::new_encoding_rs, and LossyDecoder::new_from_encoding_rs_decoder with each kind of decoder (BOM sniffing / BOM removal / no BOM handling, UTF-8 included), fed in chunks vs a one-shot decode of the whole input by the same kind of decoder (characters, malformed-sequence errors, pending state at end of stream), inputs biased to lead/trail/escape bytes, surrogates and >8 KiB lengths. Non-trivial: an ill-formed/incomplete sequence or a valid multi-byte character is adjacent to / split by a cut (UTF-8), or >=2 non-empty chunks with non-ASCII output or a malformed sequence (encoding_rs); distinct by hash of (encoding, chunk list).",
     );
     rep.assume("std::str::Utf8Chunks / String::from_utf8_lossy and encoding_rs's one-shot decode are the reference decoders");
     run_regressions(ctx, &mut rep, &|v| replay(&ctx.strict_clone(), v));
